@@ -31,6 +31,7 @@ type dcase struct {
 	PerCli   int    `json:"datagrams_per_client"`
 	Reconn   bool   `json:"close_and_reconnect"`
 	Overflow bool   `json:"overflow_phase"`
+	SlowRead bool   `json:"slow_reader,omitempty"` // one remote fills its connection's receive buffer (4 MiB) while the handler does not read
 	Seed     int64  `json:"seed"`
 }
 
@@ -197,11 +198,23 @@ func runCase(c *dcase, r *res.Result) (string, string) {
 	var readers sync.WaitGroup
 	var outstanding int64 // bytes sent by paced senders and not yet read (global budget keeps the kernel queue far below its limit)
 	const budget = 48 * 1024
-	complete := c.Paced && !c.Reconn && c.Backlog >= c.Clients // every admissible datagram must come out
+	complete := c.Paced && !c.Reconn && c.Backlog >= c.Clients && !c.SlowRead // every admissible datagram must come out
 	var stop int32
 	var nConns, nReconn, handlersSpawned, handlersDone int64
 	firstReads := map[string]uint32{}
 	var fmu sync.Mutex
+	victim := -1
+	release := make(chan struct{})
+	var releaseOnce sync.Once
+	defer releaseOnce.Do(func() { close(release) })
+	if c.SlowRead {
+		for _, cl := range clients {
+			if !cl.odd {
+				victim = cl.idx
+				break
+			}
+		}
+	}
 	// connection reader: isolation, order, integrity, gap-freeness (paced)
 	handle := func(conn net.Conn, closeAfter int) {
 		defer readers.Done()
@@ -227,6 +240,9 @@ func runCase(c *dcase, r *res.Result) (string, string) {
 		for _, old := range stale {
 			old.Close()
 			r.Count("closes_of_closed_connections", 1)
+		}
+		if c.SlowRead && cl.idx == victim {
+			<-release // slow reader: nothing is read until the remote has overfilled the receive buffer
 		}
 		buf := make([]byte, 9000)
 		var last uint32
@@ -391,6 +407,22 @@ func runCase(c *dcase, r *res.Result) (string, string) {
 			}
 		}
 	}
+	// slow reader: one remote sends more than its connection's receive buffer holds (4 MiB) while the handler does not
+	// read. What does not fit is dropped; the connection stays THE connection of that remote: no second one may be
+	// created (seen by the handler as demux:duplicate-connection), and later datagrams still reach it.
+	if c.SlowRead && victim >= 0 {
+		cl := clients[victim]
+		for i := 0; i < 600; i++ {
+			cl.sent++
+			cl.conn.Write(mk(cl.idx, cl.sent, 8000, c.Filter == "skipfirst" && cl.sent == 1))
+			if i%32 == 31 && !readLoopIdle() {
+				break
+			}
+		}
+		readLoopIdle()
+		r.Count("slow_reader_phases", 1)
+		releaseOnce.Do(func() { close(release) })
+	}
 	// senders
 	var sw sync.WaitGroup
 	for _, cl := range clients {
@@ -513,6 +545,7 @@ func genCase(rng *rand.Rand) *dcase {
 	c.PerCli = 5 + rng.Intn(60)
 	c.Reconn = rng.Intn(3) == 0
 	c.Overflow = rng.Intn(3) == 0 && !c.Reconn && c.Filter != "skipfirst"
+	c.SlowRead = rng.Intn(6) == 0 && !c.Overflow && !c.Reconn
 	if c.Backlog < c.Clients && !c.Overflow {
 		// small backlogs are only meaningful with the overflow phase; otherwise keep room for every remote
 		c.Backlog = 128
@@ -533,7 +566,7 @@ func main() {
 	flag.Parse()
 	_, _ = nshard, replay
 	r := res.New("C11")
-	r.Rule = "2-24 client sockets on 127.0.0.1 (and the same port on 127.0.0.2/.3) send tagged datagrams (client, seq, length, filler; sizes 12..8192) to a real loopback listener; configurations: backlog 1/2/128, accept filter none / first-byte-even, batch reads off/2/8, paced (window <= 8 datagrams or 4 KiB outstanding per client) or burst, connections closed after a few reads and re-created, an overflow phase with more first datagrams than the backlog while nobody accepts; oracle per connection: remote address == tagged sender, strictly increasing seq (across successive connections of a remote too), byte-identical payload, gap-free and complete in paced mode, no second open connection per remote, no connection for filtered remotes, at most backlog connections queued, first read = first admitted datagram; distinct = (case shape) cells"
+	r.Rule = "2-24 client sockets on 127.0.0.1 (and the same port on 127.0.0.2/.3) send tagged datagrams (client, seq, length, filler; sizes 12..8192) to a real loopback listener; configurations: one remote overfilling its connection's 4 MiB receive buffer while the handler does not read (slow reader), backlog 1/2/128, accept filter none / first-byte-even, batch reads off/2/8, paced (window <= 8 datagrams or 4 KiB outstanding per client) or burst, connections closed after a few reads and re-created, an overflow phase with more first datagrams than the backlog while nobody accepts; oracle per connection: remote address == tagged sender, strictly increasing seq (across successive connections of a remote too), byte-identical payload, gap-free and complete in paced mode, no second open connection per remote, no connection for filtered remotes, at most backlog connections queued, first read = first admitted datagram; distinct = (case shape) cells"
 	r.Assumptions = []string{"Linux loopback UDP does not reorder between one socket pair and does not drop while less than 100 KiB is outstanding in total", "listener idleness is read from the read loop's goroutine state (IO wait, two samples)"}
 	n := 40
 	if *tier == "thorough" {
@@ -548,7 +581,7 @@ func main() {
 		}
 		r.Eval(1)
 		k, d := runCase(c, r)
-		r.DistinctKey(fmt.Sprintf("cl=%d mip=%v bl=%d f=%s b=%d p=%v rc=%v of=%v", c.Clients/4, c.MultiIP, c.Backlog, c.Filter, c.Batch, c.Paced, c.Reconn, c.Overflow))
+		r.DistinctKey(fmt.Sprintf("cl=%d mip=%v bl=%d f=%s b=%d p=%v rc=%v of=%v", c.Clients/4, c.MultiIP, c.Backlog, c.Filter, c.Batch, c.Paced, c.Reconn, c.Overflow) + fmt.Sprintf(" sr=%v", c.SlowRead))
 		if k == "" && d != "" {
 			r.Inconc(d)
 			continue
